@@ -29,7 +29,15 @@ theorem layout_agree_abi (tg : Target) (h : wfTarget tg = true) (ha : abiOK tg =
     (hp : padFree tg (toRaw t) = true) : abiTable tg t = llvmLayout tg t := by
   rcases wfTarget_cases tg h with rfl | rfl
   · exact absurd ha (by decide)
-  · exact abi_eq_ll t hp
+  · exact abi_eq_ll 8 (Or.inr rfl) _ ha t hp
+
+/-- **(c) = (b) with `fixes/C08-1.diff`** (the descriptor table takes the alignment of 8-byte kinds from the data
+    layout): holds on every well-formed target, 386 included. -/
+theorem layout_agree_abi_fixed (tg : Target) (h : wfTarget tg = true) (t : GoType)
+    (hp : padFree tg (toRaw t) = true) : abiTableFixed tg t = llvmLayout tg t := by
+  rcases wfTarget_cases tg h with rfl | rfl
+  · exact abi_eq_ll 4 (Or.inl rfl) _ (by decide) t hp
+  · exact abi_eq_ll 8 (Or.inr rfl) _ (by decide) t hp
 
 /-- **The property, as far as it is true of the current code** (all three computations, every type term). -/
 theorem layout_agree_partial (tg : Target) (h : wfTarget tg = true) (ha : abiOK tg = true) (t : GoType)
@@ -81,7 +89,8 @@ def exStruct : GoType :=
 example : wfTarget amd64 = true ∧ abiOK amd64 = true ∧ padFree amd64 exStruct = true ∧
     padFree amd64 (toRaw exStruct) = true := by decide
 example : goSizes amd64 exStruct = ⟨112, 8, [0, 8, 24, 72, 88, 96]⟩ ∧ goSizes i386 exStruct = ⟨68, 4, [0, 4, 12, 36, 44, 52]⟩ := by decide
-example : wfTarget i386 = true ∧ padFree i386 exStruct = true := by decide
+example : wfTarget i386 = true ∧ padFree i386 exStruct = true ∧ padFree i386 (toRaw exStruct) = true := by decide
+example : abiTableFixed i386 (.basic .int64) = ⟨8, 4, []⟩ ∧ abiTable i386 (.basic .int64) = ⟨8, 8, []⟩ := by decide
 example : padFree amd64 (toRaw (mapBucket amd64 (toRaw (.basic .string)) (toRaw exStruct))) = true := by decide
 
 /-! ## what does not hold: the full statement is false on every target -/
